@@ -266,6 +266,47 @@ type obsBufGen struct {
 	Inputs         []obsInput       `json:"inputs"`
 }
 
+// Names of the managed-mode options by their exported constants, written here from the documented
+// list: the observation must not depend on buf's own enum-to-name table (the writer's table).
+var fileOptionNames = map[bufconfig.FileOption]string{
+	bufconfig.FileOptionUnspecified:                "",
+	bufconfig.FileOptionJavaPackage:                "java_package",
+	bufconfig.FileOptionJavaPackagePrefix:          "java_package_prefix",
+	bufconfig.FileOptionJavaPackageSuffix:          "java_package_suffix",
+	bufconfig.FileOptionJavaOuterClassname:         "java_outer_classname",
+	bufconfig.FileOptionJavaMultipleFiles:          "java_multiple_files",
+	bufconfig.FileOptionJavaStringCheckUtf8:        "java_string_check_utf8",
+	bufconfig.FileOptionOptimizeFor:                "optimize_for",
+	bufconfig.FileOptionGoPackage:                  "go_package",
+	bufconfig.FileOptionGoPackagePrefix:            "go_package_prefix",
+	bufconfig.FileOptionCcEnableArenas:             "cc_enable_arenas",
+	bufconfig.FileOptionObjcClassPrefix:            "objc_class_prefix",
+	bufconfig.FileOptionCsharpNamespace:            "csharp_namespace",
+	bufconfig.FileOptionCsharpNamespacePrefix:      "csharp_namespace_prefix",
+	bufconfig.FileOptionPhpNamespace:               "php_namespace",
+	bufconfig.FileOptionPhpMetadataNamespace:       "php_metadata_namespace",
+	bufconfig.FileOptionPhpMetadataNamespaceSuffix: "php_metadata_namespace_suffix",
+	bufconfig.FileOptionRubyPackage:                "ruby_package",
+	bufconfig.FileOptionRubyPackageSuffix:          "ruby_package_suffix",
+}
+
+func fileOptionName(o bufconfig.FileOption) string {
+	if n, ok := fileOptionNames[o]; ok {
+		return n
+	}
+	return fmt.Sprintf("file_option#%d", int(o))
+}
+
+func fieldOptionName(o bufconfig.FieldOption) string {
+	switch o {
+	case bufconfig.FieldOptionUnspecified:
+		return ""
+	case bufconfig.FieldOptionJSType:
+		return "jstype"
+	}
+	return fmt.Sprintf("field_option#%d", int(o))
+}
+
 func observeBufGen(f bufconfig.BufGenYAMLFile) obsBufGen {
 	g := f.GenerateConfig()
 	o := obsBufGen{Clean: g.CleanPluginOuts(), Plugins: []obsGenPlugin{}, Disables: []obsManagedRule{}, Overrides: []obsManagedRule{}, Inputs: []obsInput{}}
@@ -279,10 +320,10 @@ func observeBufGen(f bufconfig.BufGenYAMLFile) obsBufGen {
 	if m := g.GenerateManagedConfig(); m != nil {
 		o.ManagedEnabled = m.Enabled()
 		for _, d := range m.Disables() {
-			o.Disables = append(o.Disables, obsManagedRule{Path: d.Path(), Module: d.FullName(), Field: d.FieldName(), FileOption: d.FileOption().String(), FieldOption: d.FieldOption().String()})
+			o.Disables = append(o.Disables, obsManagedRule{Path: d.Path(), Module: d.FullName(), Field: d.FieldName(), FileOption: fileOptionName(d.FileOption()), FieldOption: fieldOptionName(d.FieldOption())})
 		}
 		for _, d := range m.Overrides() {
-			o.Overrides = append(o.Overrides, obsManagedRule{Path: d.Path(), Module: d.FullName(), Field: d.FieldName(), FileOption: d.FileOption().String(), FieldOption: d.FieldOption().String(),
+			o.Overrides = append(o.Overrides, obsManagedRule{Path: d.Path(), Module: d.FullName(), Field: d.FieldName(), FileOption: fileOptionName(d.FileOption()), FieldOption: fieldOptionName(d.FieldOption()),
 				Value: fmt.Sprintf("%T:%v", d.Value(), d.Value())})
 		}
 	}
